@@ -416,6 +416,11 @@ class List(list, base.Symbolic, pg_typing.CustomTyping):
       elif index >= -len(self):
         index += len(self)
 
+    if ((should_insert or index >= len(self))
+        and self.max_size is not None and len(self) >= self.max_size):
+      raise ValueError(
+          self._error_message(f'List reached its max size {self.max_size}.'))
+
     old_value = pg_typing.MISSING_VALUE
     # Replace an existing value.
     if index < len(self) and not should_insert:
@@ -597,6 +602,13 @@ class List(list, base.Symbolic, pg_typing.CustomTyping):
           f'Length={len(self)}, index={index}')
     else:
       indices = [index]
+
+    if (self._value_spec
+        and len(self) - len(indices) < self._value_spec.min_size):
+      raise ValueError(
+          self._error_message(
+              f'Cannot delete item: min size ({self._value_spec.min_size}) '
+              f'is reached.'))
 
     updates = []
     for i in indices:
